@@ -48,6 +48,7 @@ GEN = {
     "nest": "Gen_NestedExec_nest.cfg",
     "pos": "Gen_NestedExec_pos.cfg",
     "sete": "Gen_NestedExec_sete.cfg",
+    "execnest": "Gen_NestedExec_execnest.cfg",
 }
 
 # gen: (name, K, mode, every)   mode sim|real; every: replay every n-th program
@@ -56,15 +57,15 @@ PLAN = {
         "laws": [("MC_NestedExec_laws.cfg", 3)],
         "gen": [("evalloop", 5, "sim", 1), ("dotret", 5, "sim", 1), ("exit", 5, "sim", 1), ("errors", 4, "sim", 1),
                 ("errexit", 5, "sim", 1), ("nest", 6, "sim", 1), ("pos", 5, "sim", 1), ("sete", 5, "sim", 1),
-                ("exec", 3, "real", 1), ("exec", 4, "sim", 1),
-                ("exit", 4, "real", 12), ("dotret", 4, "real", 8), ("pos", 4, "real", 4)],
+                ("exec", 3, "real", 1), ("execnest", 4, "real", 2), ("exec", 4, "sim", 1),
+                ("exit", 4, "real", 16), ("dotret", 4, "real", 8), ("pos", 4, "real", 4)],
         "variants": 2, "random": (6000, 30), "random_real": (300, 24), "jobs": 6,
     },
     "thorough": {
         "laws": [("MC_NestedExec_laws.cfg", 4)],
         "gen": [("evalloop", 6, "sim", 1), ("dotret", 6, "sim", 1), ("exit", 5, "sim", 1), ("errors", 5, "sim", 1),
                 ("errexit", 6, "sim", 1), ("nest", 7, "sim", 1), ("pos", 6, "sim", 1), ("sete", 6, "sim", 1),
-                ("exec", 4, "real", 1), ("exec", 5, "sim", 1),
+                ("exec", 4, "real", 1), ("execnest", 5, "real", 1), ("exec", 5, "sim", 1),
                 ("exit", 4, "real", 2), ("dotret", 4, "real", 2), ("errors", 4, "real", 8), ("evalloop", 4, "real", 1),
                 ("pos", 4, "real", 1), ("sete", 4, "real", 2)],
         "variants": 3, "random": (60000, 40), "random_real": (3000, 30), "jobs": 8,
@@ -119,6 +120,15 @@ def _unify(exp_tr, exp_st, obs_tr, obs_st):
         elif es != os_:
             return False
     return True
+
+
+# every rule tag of NestedExec.tla (the interpreter's rules that carry a tag)
+_CTX = ("top", "eval", "dot", "fn", "sub")
+RULE_TAGS = ([f"{k}@{c}" for k in ("errexit", "exit", "brk", "cnt", "evalsyn", "dotmiss", "dotsyn", "exec", "exec127",
+                                  "exec126") for c in _CTX]
+             + [f"ret@{c}" for c in ("eval", "dot", "fn")]
+             + ["ret-ends-fn", "ret-ends-dot", "evalnil", "dotnil", "trap-errexit", "trap-exit-default", "trap-exit-n"]
+             + [f"trap-after-{w}" for w in ("eof", "exit", "errexit", "error", "execfail")])
 
 
 class Stats:
@@ -213,14 +223,14 @@ def gen_and_replay(rep, wd, name, k, mode, every, st, variants, workers=4, jobs=
                 nfail += 1
                 _violation(rep, "S->I", name, rec["p"], f, mode)
         if lost:
-            rechecks = 0
+            rechecks = unclean = 0
             for i, line in enumerate(vlib.read_ndjson(gen)):
                 if i in lost:
                     oks = [o for o in line["o"] if o["oc"] == "ok"]
                     # a hang / crash: does it disappear when the notable input variants are avoided?
                     # (only inputs without commands have such variants; a few re-executions are enough)
                     clean = False
-                    if any(t["k"] in ("evalnil", "dotnil") for t in line["p"]) and rechecks < 6:
+                    if any(t["k"] in ("evalnil", "dotnil") for t in line["p"]) and rechecks < 40 and unclean < 3:
                         rechecks += 1
                         ver2 = ver + ".redo"
                         vlib.run_harness(PKG, ["run", "--in", gen, "--out", ver2, "--mode", mode, "--variants", v,
@@ -228,6 +238,7 @@ def gen_and_replay(rep, wd, name, k, mode, every, st, variants, workers=4, jobs=
                         again = [x for x in vlib.read_ndjson(ver2) if not x.get("note")]
                         os.remove(ver2)
                         clean = len(again) == 1 and not again[0].get("lost") and not again[0].get("fails")
+                        unclean += 0 if clean else 1
                     f = {"why": lost[i]["lost"], "e": -1, "t": -1, "tg": sorted({t for o in oks for t in o.get("tg", [])}),
                          "feat": "blank-line-only-input" if clean else "",
                          "expected": oks[:1], "observed": {"oc": lost[i]["lost"]}}
@@ -286,6 +297,18 @@ def _judge(path, shards, timeout=2400):
     return verdicts
 
 
+def _why(rec, info):
+    """A more specific description of a rejection where the only difference is
+    that the EXIT trap action expected last was not run: everything before it
+    agrees and the final status is the $? the action would have seen."""
+    exp_tr = info["tr"]
+    traps = {0} | {i + 1 for i, t in enumerate(rec["p"]) if t["k"] == "trap"}
+    if rec["oc"] == "completed" and exp_tr and exp_tr[-1][0] in traps \
+            and _unify(exp_tr[:-1], exp_tr[-1][1], rec["tr"], rec["st"]):
+        return "EXIT trap action not run"
+    return "rejected by Trace_NestedExec"
+
+
 def random_and_validate(rep, wd, n, size, mode, st, jobs=4, shards=6):
     recs = os.path.join(wd, f"random-{mode}.ndjson")
     full = os.path.join(wd, f"random-{mode}.full.ndjson")
@@ -313,7 +336,10 @@ def random_and_validate(rep, wd, n, size, mode, st, jobs=4, shards=6):
             v2 = _judge(recs2, min(shards, 2))
             for k, rec in enumerate(f2):
                 if "reject" not in v2[k]:
-                    feat[rec["i"]] = True
+                    feat[rec["i"]] = "gone"
+                elif _why(rec, v2[k]) == "EXIT trap action not run":
+                    # without the variant nothing remains but the EXIT trap action that was not run
+                    feat[rec["i"]] = "trap"
             os.remove(recs2)
             os.remove(full2)
     skips = {}
@@ -331,11 +357,8 @@ def random_and_validate(rep, wd, n, size, mode, st, jobs=4, shards=6):
         for g in rejects:
             rec, info = fulls[g], verdicts[g]
             obs_tr, exp_tr = rec["tr"], info["tr"]
-            why = "rejected by Trace_NestedExec"
-            traps = {0} | {i + 1 for i, t in enumerate(rec["p"]) if t["k"] == "trap"}
-            if rec["oc"] == "completed" and exp_tr and exp_tr[-1][0] in traps \
-                    and _unify(exp_tr[:-1], exp_tr[-1][1], obs_tr, rec["st"]):
-                # everything before the EXIT trap action agrees, the final status is the $? it would have seen
+            why = _why(rec, info)
+            if feat.get(rec["i"]) == "trap":
                 why = "EXIT trap action not run"
             f = {"e": rec["e"], "t": rec["t"], "why": why, "tg": info.get("tg", []),
                  "feat": (rec["feats"][0] if feat.get(rec["i"]) else ""),
@@ -391,13 +414,16 @@ def run(tier):
         if mode == "sim":
             tasks.append(lambda name=name, k=k, every=every: gen_and_replay(
                 rep, wd, name, k, "sim", every, st, plan["variants"], workers=4, jobs=jobs))
-    with ThreadPoolExecutor(max_workers=3) as ex:
+    with ThreadPoolExecutor(max_workers=4 if tier == "quick" else 3) as ex:
         futs = [ex.submit(t) for t in tasks]
         for f in futs:
             f.result()
     validated = res["sim"][0] + res["real"][0]
     skipped = res["sim"][1] + res["real"][1]
     rc = rep.finish()
+    never = sorted(t for t in RULE_TAGS if not st.tags.get(t) and not st.rtags.get(t))
+    if never:
+        raise vlib.ToolError(f"rules of NestedExec.tla never exercised by a replayed or validated run: {never}")
     vlib.write_evidence(PID, tier, {
         "states": st.states,
         "transitions": st.transitions,
@@ -417,6 +443,7 @@ def run(tier):
         "random_programs_skipped": skipped,
         "per_configuration": st.per_cfg,
         "token_kinds_replayed": st.kinds,
+        "spec_rule_tags_total": len(RULE_TAGS),
         "spec_rule_tags_replayed": st.tags,
         "spec_rule_tags_in_accepted_random_runs": st.rtags,
         "known_finding_hits": {fid: n for fid, (f, n) in rep.known_hits.items()},
